@@ -8,7 +8,7 @@
 //!   HEADER: space separated  key=value  items
 //!     opts=<lsmtk flags joined by ','>   comp=<number of real compaction threads>
 //!     yield=<per mille>  seed=<n>  slots=<wait-list slots, 0 = default>  keys=<size of the key universe>
-//!     ctl=<controller script, commands joined by ','>   (default: startall,joinall,final)
+//!     ctl=<controller script, commands joined by ';'>   (default: startall;joinall;final)
 //!   PROGi: space separated client operations of thread i
 //!     p<key>=<val>   d<key>   b<key>=<val>,<key>=~,...   (e = empty batch)   g<key>
 //!     s<lo>-<hi> (scan of the inclusive key-id range, forward)   s (whole store)
@@ -21,6 +21,7 @@
 //! output:
 //!   OPEN ok|err ..
 //!   EV <tid> <what> <a> <b> <c>          one per recorded event, in recording order
+//!   FINAL <seq_no> <mem_seq_no> <imm_trigger> <has_imm>   the store's scalars after the run
 //!   CTL <what> <result>                  controller notes (timeouts)
 //!   END
 //! recorded client events: inv(op, kind, 0)  got(op, 0 none|1 value|2 tombstone|3 err, value)
@@ -221,7 +222,7 @@ fn main() {
             "seed" => seed = v.parse().unwrap(),
             "slots" => slots = v.parse().unwrap(),
             "keys" => nkeys = v.parse().unwrap(),
-            "ctl" => ctl = v.split(',').map(|x| x.to_string()).collect(),
+            "ctl" => ctl = v.split(';').map(|x| x.to_string()).collect(),
             _ => {}
         }
     }
@@ -276,12 +277,15 @@ fn main() {
         });
     }
     let mut starters = vec![];
+    let mut finished: Vec<Arc<AtomicBool>> = vec![];
     let mut handles: Vec<Option<std::thread::JoinHandle<()>>> = vec![];
     for (tid, prog) in progs.iter().enumerate() {
         let st = Arc::new(Starter { go: Mutex::new(false), cv: Condvar::new() });
         starters.push(Arc::clone(&st));
         let k2 = Arc::clone(&kvs);
         let prog = prog.clone();
+        let fin = Arc::new(AtomicBool::new(false));
+        finished.push(Arc::clone(&fin));
         handles.push(Some(std::thread::spawn(move || {
             KeyValueStore::verif_set_tid(tid as u64);
             {
@@ -293,6 +297,7 @@ fn main() {
             for (i, op) in prog.iter().enumerate() {
                 run_op(&k2, i as u64, op);
             }
+            fin.store(true, Ordering::SeqCst);
         })));
     }
     let start = |tid: usize| {
@@ -317,35 +322,56 @@ fn main() {
             "release" => KeyValueStore::verif_gate_release(f[1], f[2].parse().unwrap()),
             "join" => {
                 let t: usize = f[1].parse().unwrap();
-                if let Some(h) = handles.get_mut(t).and_then(|h| h.take()) {
+                let t0 = std::time::Instant::now();
+                while t < finished.len() && !finished[t].load(Ordering::SeqCst) && t0.elapsed() < Duration::from_secs(30) {
+                    std::thread::sleep(Duration::from_millis(1));
+                }
+                if t < finished.len() && !finished[t].load(Ordering::SeqCst) {
+                    notes.push(format!("CTL join:{t} timeout"));
+                } else if let Some(h) = handles.get_mut(t).and_then(|h| h.take()) {
                     let _ = h.join();
                 }
             }
             "joinall" => {
                 KeyValueStore::verif_gate_release_all();
-                for h in handles.iter_mut() {
-                    if let Some(h) = h.take() {
-                        let _ = h.join();
+                // a thread that does not come back within the deadline is left behind (its operation
+                // stays without a response in the history); the process exits at the end anyway
+                let t0 = std::time::Instant::now();
+                while finished.iter().any(|f| !f.load(Ordering::SeqCst)) && t0.elapsed() < Duration::from_secs(60) {
+                    std::thread::sleep(Duration::from_millis(1));
+                }
+                for (t, h) in handles.iter_mut().enumerate() {
+                    if finished[t].load(Ordering::SeqCst) {
+                        if let Some(h) = h.take() {
+                            let _ = h.join();
+                        }
+                    } else {
+                        notes.push(format!("CTL joinall thread {t} did not finish"));
                     }
                 }
             }
             "flush" => {
+                // NOTE: a request made while the previous flush is finishing is forgotten by the store
+                // (_memtable_thread overwrites imm_trigger with the older value when it clears imm), so
+                // the request is repeated while the targeted memtable is still the current one.
                 if !dead.load(Ordering::SeqCst) {
                     let target = kvs.verif_request_flush();
-                    // wait with a deadline: a dead memtable thread must not hang the harness
-                    let k2 = Arc::clone(&kvs);
-                    let done = Arc::new(AtomicBool::new(false));
-                    let d2 = Arc::clone(&done);
-                    std::thread::spawn(move || {
-                        k2.verif_wait_flush(target);
-                        d2.store(true, Ordering::SeqCst);
-                    });
                     let t0 = std::time::Instant::now();
-                    while !done.load(Ordering::SeqCst) && t0.elapsed() < Duration::from_secs(20) {
+                    let mut last = std::time::Instant::now();
+                    loop {
+                        let st = kvs.verif_state();
+                        if st.imm_trigger >= target && !st.has_imm && st.mem_seq_no > target {
+                            break;
+                        }
+                        if dead.load(Ordering::SeqCst) || t0.elapsed() > Duration::from_secs(20) {
+                            notes.push("CTL flush timeout".into());
+                            break;
+                        }
+                        if st.mem_seq_no == target && st.imm_trigger < target && last.elapsed() > Duration::from_millis(20) {
+                            kvs.verif_request_flush();
+                            last = std::time::Instant::now();
+                        }
                         std::thread::sleep(Duration::from_millis(1));
-                    }
-                    if !done.load(Ordering::SeqCst) {
-                        notes.push("CTL flush timeout".into());
                     }
                 }
             }
@@ -371,6 +397,8 @@ fn main() {
         }
     }
     let trace = verif::take();
+    let stf = kvs.verif_state();
+    writeln!(out, "FINAL {} {} {} {}", stf.seq_no, stf.mem_seq_no, stf.imm_trigger, stf.has_imm as u8).unwrap();
     for e in trace.iter() {
         writeln!(out, "EV {} {} {} {} {}", e.tid, e.what, e.a, e.b, e.c).unwrap();
     }
